@@ -31,6 +31,10 @@ def from_model(tc, k):
             out.append(ex(x, framing, n, extra=True))
         elif h == "close-header":
             out.append(ex(x, framing, n, persistent=False))
+        elif h == "hcut":
+            e1 = ex(x, framing, n)
+            e1["hcut"] = (k * 7 + x) % 36
+            out.append(e1)
         else:
             out.append(ex(x, framing, n, drop=True))
     return {"ex": out, "limit": tc["limit"], "concurrent": 1, "origin": "ClientConn"}
@@ -44,6 +48,13 @@ def directed(rnd, quick):
         for cut in (range(0, n) if not quick else (0, 1, 7, 8, 22)):
             for seg in (1 << 20, 1, 5):
                 cases.append({"ex": [ex(1, framing, n, cut=cut, seg=seg), ex(2, "cl", 5)], "limit": 2, "concurrent": 1})
+    # connection closed at every byte offset of the head (status line, header names and values, the final CR), then another request
+    for framing in ("cl", "chunked"):
+        for hcut in (range(0, 60) if not quick else (0, 1, 9, 15, 16, 17, 30, 36, 37, 59)):
+            for seg in ((1 << 20, 1, 5) if not quick else (1 << 20, 1)):
+                e1 = ex(1, framing, 12, seg=seg)
+                e1["hcut"] = hcut
+                cases.append({"ex": [e1, ex(2, "cl", 5), ex(3, framing, 9)], "limit": 2, "concurrent": 1})
     # (bodies delimited by connection close are not in the property's quantifier: awc reads HTTP/1.1 responses without a length as empty)
     # chunk-size lines with every hex digit, upper and lower case boundaries (10..15, 26, 171, 255, 256, 4096)
     for cs in (10, 11, 12, 13, 14, 15, 26, 171, 255, 256, 4096):
@@ -98,10 +109,10 @@ def run(rep):
     sc = rnd.sample(sc, cap) if len(sc) > cap else sc
     cases = [from_model(tc, k) for k, tc in enumerate(sc)] + directed(rnd, quick)
     rep.cov["distinct_nontrivial"] = len({json.dumps(c, sort_keys=True) for c in cases})
-    rep.cov["rule"] = ("ClientConn: every sequence of 4-5 exchanges to one authority, each ending complete / cut by the server / followed by extra bytes / "
+    rep.cov["rule"] = ("ClientConn: every sequence of 4-5 exchanges to one authority, each ending complete / cut by the server in the body or in the head / followed by extra bytes / "
                        "with connection: close / dropped early by the application, against a pool limit, explored by TLC; completed behaviours are "
                        "concretised (framing and sizes rotate) and run through awc::Client over a scripted in-memory connector; plus a close at "
-                       "every byte offset of Content-Length and chunked bodies under three segmentations, leftovers, and concurrency above the "
+                       "every byte offset of the head and of Content-Length and chunked bodies under three segmentations, leftovers, and concurrency above the "
                        "limit; chunked responses that also carry a Content-Length. distinct = cases")
     for c in cases[:1] + cases[-1:]:
         rep.sample(c)
